@@ -37,6 +37,10 @@ func (p *Prog) VerifyForbids(prop string) *FuncResult {
 			p.verifyCovers(fb, all, res)
 			continue
 		}
+		if len(fb.Writes) == 1 && fb.Writes[0] == "outside-pairs" {
+			p.verifyDirectWrites(fb, all, res)
+			continue
+		}
 		exempt := map[string]bool{}
 		for _, e := range fb.Except {
 			exempt[e] = true
